@@ -37,11 +37,12 @@ enum {
 	K_COY,		/* /Ny */
 	K_BD,		/* business day of the month Nb (on bizda values) */
 	K_COBD,		/* /1b */
-	K_WK,		/* ISO week number Nw (on week dates) */
+	K_WK,		/* ISO week number Nw */
+	K_Q,		/* quarter Nq */
 	NKIND
 };
 static const char *const kind_name[NKIND] = {"weekday", "month-name", "month-number", "day-of-month", "hour", "minute", "second",
-					     "/Nh", "/Nm", "/Ns", "/1d", "/Nmo", "/Ny", "business-day", "/1b", "week-number"};
+					     "/Nh", "/Nm", "/Ns", "/1d", "/Nmo", "/Ny", "business-day", "/1b", "week-number", "quarter"};
 
 struct spec_s {
 	int kind, n, down;
@@ -78,6 +79,7 @@ spec_make(struct spec_s *s, int kind, int n, int down)
 	case K_BD: snprintf(s->text, sizeof(s->text), "%s%db", sg, n); break;
 	case K_COBD: snprintf(s->text, sizeof(s->text), "/%s%db", sg, n); break;
 	case K_WK: snprintf(s->text, sizeof(s->text), "%s%dw", sg, n); break;
+	case K_Q: snprintf(s->text, sizeof(s->text), "%s%dq", sg, n); break;
 	}
 	/* exactly what main() does with one RNDSPEC */
 	if (dt_io_strpdtrnd(&st, s->text) >= 0 && st.ndurs == 1U && !__strpdtdur_more_p(&st)) {
@@ -327,11 +329,13 @@ oracle0(int fam, int64_t in, const struct spec_s *s, int next, int64_t *out, con
 	}
 	if (s->kind == K_WK) {
 		int64_t cl;
-		if (fam != FAM_W) {
-			*skip = "Nw on a value not held as week date";
+		/* the ISO week number is a field of every date, however it is written (quantifier: all
+		 * dates); a time of day has none */
+		if (fam == FAM_T) {
+			*skip = "date target on a time";
 			return 1;
 		}
-		r = walk_weeks((int)in, s->n, s->down, next, &cl);
+		r = walk_weeks((int)(fam == FAM_DT ? in / 86400 : in), s->n, s->down, next, &cl);
 		if (cl != r) {
 			*skip = "week 53 in a year of 52 weeks: exact vs. clamped reading differ";
 			return 1;
@@ -339,7 +343,7 @@ oracle0(int fam, int64_t in, const struct spec_s *s, int next, int64_t *out, con
 		if (r == NONE) {
 			return 2;
 		}
-		*out = r;
+		*out = fam == FAM_DT ? r * 86400 + in % 86400 : r;
 		return 0;
 	}
 	if (s->kind == K_BD) {
@@ -684,6 +688,105 @@ class_key(char *key, size_t ksz, int fam, const struct spec_s *s, int next, cons
 	snprintf(key, ksz, "%s target=%s dir=%s next=%d: %s", fam_name[fam], tgt, s->down ? "down" : "up", next, what);
 }
 
+/* quarter targets: Nq is a suffix --help names, but neither --help nor the statement say which
+ * month of the quarter is meant (the tool takes the first, "less significant elements are left
+ * unchanged" suggests the same month of the quarter).  Judged is what every reading shares: a value in
+ * quarter N already is returned unchanged (without -n); otherwise the result lies in the nearest
+ * quarter N on the requested side (strictly beyond the current one with -n), with the input's
+ * day of month (clamped) and time of day */
+static int
+do_quarter(int fam, int64_t in, struct dt_dt_s v, const struct spec_s *s, int si, int next, int verbose)
+{
+	char itxt[40], got[64], key[200], cas[64], cmd[128], etxt[96];
+	struct dt_dtdur_s dur = s->dur;
+	struct dt_dt_s r;
+	const char *what = NULL;
+	int64_t obs = NONE;
+	int rd0 = (int)(fam == FAM_DT ? in / 86400 : in), sec0 = fam == FAM_DT ? (int)(in % 86400) : 0;
+	const struct rc_day *p0 = rc_get(rd0);
+	int step = s->down ? -1 : 1, prc;
+	int64_t rr = rd0, plo = NONE, phi = NONE;
+	EX_CTR(c_q, "quarter_roundings");
+
+	/* leave the current period if the input is in quarter N and -n is given */
+	if (p0->q == s->n && next) {
+		while (rd_ok(rr) && rc_get((int)rr)->q == s->n) {
+			rr += step;
+		}
+	}
+	while (rd_ok(rr) && rc_get((int)rr)->q != s->n) {
+		rr += step;
+	}
+	if (!rd_ok(rr)) {
+		return 0;
+	}
+	/* the whole period around rr */
+	for (plo = rr; rd_ok(plo - 1) && rc_get((int)plo - 1)->q == s->n && rc_get((int)plo - 1)->y == rc_get((int)rr)->y; plo--) {
+		;
+	}
+	for (phi = rr; rd_ok(phi + 1) && rc_get((int)phi + 1)->q == s->n && rc_get((int)phi + 1)->y == rc_get((int)rr)->y; phi++) {
+		;
+	}
+	if (p0->q == s->n && next) {
+		/* -n from inside the quarter: strictly beyond the input; whether that may be another
+		 * month of the same quarter or must be the next occurrence depends on the open reading */
+		if (s->down) {
+			phi = rd0 - 1;
+		} else {
+			plo = rd0 + 1;
+		}
+	}
+	r = dround(v, &dur, 1U, next);
+	++*c_eval;
+	++*c_trans;
+	++*c_q;
+	memset(got, 0, sizeof(got));
+	dt_strfdt(got, sizeof(got), fam_fmt[fam], r);
+	prc = parse_out(got, fam, &obs);
+	ex_outcome(ex_hash_mix(ex_hash(got, strlen(got)), (uint64_t)s->kind));
+	fmt_inst(itxt, sizeof(itxt), fam, in);
+	snprintf(cmd, sizeof(cmd), "dround %s%s-- %s %s", next ? "-n " : "", fam_opt[fam], itxt, s->text);
+	if (p0->q == s->n && !next) {
+		snprintf(etxt, sizeof(etxt), "%s (in Q%d already)", itxt, s->n);
+	} else {
+		char a[40], b[40];
+		fmt_inst(a, sizeof(a), FAM_D, plo);
+		fmt_inst(b, sizeof(b), FAM_D, phi);
+		snprintf(etxt, sizeof(etxt), "a day of Q%d in %s..%s with the day of month kept", s->n, a, b);
+	}
+	if (prc == 1) {
+		what = "prints something that is not a date/time of the input's form";
+	} else if (prc == 2) {
+		what = "prints a date/time that does not exist";
+	} else if (p0->q == s->n && !next) {
+		if (obs != in) {
+			what = "input already on target is moved";
+		}
+	} else {
+		int64_t ord = fam == FAM_DT ? obs / 86400 : obs;
+		if (next && obs == in) {
+			what = "--next returns the input unchanged";
+		} else if (obs == in) {
+			what = "target ignored: the input is returned unchanged";
+		} else if (ord < plo || ord > phi || rc_get((int)ord)->q != s->n) {
+			what = "not in the nearest quarter N on the requested side";
+		} else if (rc_get((int)ord)->d != (p0->d < rc_get((int)ord)->mlen ? p0->d : rc_get((int)ord)->mlen) ||
+			   (fam == FAM_DT && obs % 86400 != sec0)) {
+			what = "finer fields (day of month, time) not kept";
+		}
+	}
+	if (verbose) {
+		printf("  %s: model %s, tool %s%s%s\n", cmd, etxt, got, what ? " -- " : " (agrees)", what ? what : "");
+	}
+	if (what) {
+		class_key(key, sizeof(key), fam, s, next, what);
+		snprintf(cas, sizeof(cas), "%d %lld %d %d", fam, (long long)in, si, next);
+		ex_viol(key, (double)rd0, cas, cmd, "%s: expected %s, got %s", cmd, etxt, got);
+		return 1;
+	}
+	return 0;
+}
+
 /* returns 1 on failure */
 static int
 do_round(int fam, int64_t in, struct dt_dt_s v, const struct spec_s *s, int si, int next, int verbose)
@@ -695,6 +798,12 @@ do_round(int fam, int64_t in, struct dt_dt_s v, const struct spec_s *s, int si, 
 	int64_t exp = NONE, obs = NONE;
 	int orc, prc;
 
+	if (s->kind == K_Q) {
+		if (fam != FAM_D && fam != FAM_DT) {
+			return 0;
+		}
+		return do_quarter(fam, in, v, s, si, next, verbose);
+	}
 	orc = oracle(fam, in, s, next, &exp, &skip);
 	if (orc == 1) {
 		char sk[200];
@@ -849,6 +958,7 @@ static int bd_lo, bd_hi;	/* Nb targets (bizda values) */
 static int cobd_lo, cobd_hi;	/* /1b */
 static int wk_lo, wk_hi;	/* Nw targets (week dates) */
 static int bdx_lo, bdx_hi;	/* 21b..23b */
+static int q_lo, q_hi;	/* 1q..4q */
 
 static void
 add_spec(int kind, int n)
@@ -928,6 +1038,11 @@ build_specs(void)
 		add_spec(K_BD, b);
 	}
 	bdx_hi = nspec;
+	q_lo = nspec;
+	for (int q = 1; q <= 4; q++) {
+		add_spec(K_Q, q);
+	}
+	q_hi = nspec;
 }
 
 /* is the sign of a zero target expressible? "-0m" is a different command line from "0m"
@@ -947,7 +1062,7 @@ do_input(int fam, int64_t in, int lo, int hi)
 	char txt[40];
 	struct dt_dt_s v = parse_in(fam, in, txt, sizeof(txt));
 	EX_CTR(c_states, "states");
-	if (lo != cobd_lo && lo != bdx_lo) {
+	if (lo != cobd_lo && lo != bdx_lo && lo != q_lo && !(lo == wk_lo && fam != FAM_W)) {
 		++*c_states;
 	}
 	if (dt_unk_p(v)) {
@@ -1134,6 +1249,145 @@ do_multi_input(int fam, int64_t in, int len)
 	}
 	if (ex_want_sample()) {
 		ex_sample("%s x all lists of %d of %d RNDSPECs x {-, -n}", txt, len, NMDEF);
+	}
+}
+
+
+/* ------------------------------------ --from-zone: argument, stdin, -E and -S */
+/* one value and one spec give one answer, however the value reaches the tool.  With
+ * --from-zone Z -z Z the answer is the model's rounding of the wall-clock value (the
+ * argument form is pinned by test/dround.034); without -z the four forms must agree.
+ * Inputs and results stay clear of the zones' transition days */
+static const char *const zn[] = {"Asia/Kolkata", "Europe/Berlin", "Asia/Kathmandu", "America/New_York",
+				 "Australia/Adelaide", "Pacific/Chatham", "Asia/Tokyo", "UTC"};
+#define NZN	((int)(sizeof(zn) / sizeof(*zn)))
+static const struct {
+	int y, m, d, s;
+} zin[] = {{2012, 1, 14, 85200}, {2012, 7, 7, 44384}, {2012, 2, 29, 1800}, {2012, 6, 30, 86370}, {2012, 3, 1, 2700}};
+#define NZIN	((int)(sizeof(zin) / sizeof(*zin)))
+static const struct mdef_s zdefs[] = {
+	{K_COH, 1, 0, 0}, {K_COH, 1, 1, 0}, {K_COM, 15, 0, 0}, {K_COM, 15, 1, 0}, {K_COD, 1, 0, 0}, {K_COD, 1, 1, 0},
+	{K_H, 2, 0, 0}, {K_H, 23, 1, 0}, {K_DOM, 28, 0, 0}, {K_DOM, 1, 1, 0}, {K_WD, 1, 0, 0}, {K_WD, 6, 1, 0},
+	{K_MON, 2, 0, 0}, {K_MON, 11, 1, 0}, {K_COMO, 1, 0, 0}, {K_M, 30, 0, 0},
+};
+#define NZDEF	((int)(sizeof(zdefs) / sizeof(*zdefs)))
+static const char *const zmode[] = {"argument", "stdin", "-E", "-S"};
+
+static int
+run_zone(const char *zone, int withz, const char *in, const char *spec, int next, int mode, char *out, size_t osz)
+{
+	const char *av[16];
+	int ac = 0;
+	struct fs_opts o;
+	struct fs_result r;
+	char buf[96];
+	static const char *const env[] = {"LC_ALL=C", "TZ=UTC", NULL};
+	int rc;
+
+	memset(&o, 0, sizeof(o));
+	o.env = env;
+	o.now = 1330516800;
+	o.timeout_s = 20;
+	o.out_cap = 65536;
+	av[ac++] = "dround";
+	av[ac++] = "--from-zone";
+	av[ac++] = zone;
+	if (withz) {
+		av[ac++] = "-z";
+		av[ac++] = zone;
+	}
+	if (next) {
+		av[ac++] = "-n";
+	}
+	if (mode == 2) {
+		av[ac++] = "-E";
+	} else if (mode == 3) {
+		av[ac++] = "-S";
+	}
+	if (mode == 0) {
+		av[ac++] = in;
+	} else {
+		snprintf(buf, sizeof(buf), mode == 3 ? "x %s y\n" : "%s\n", in);
+		o.stdin_data = buf;
+		o.stdin_len = strlen(buf);
+	}
+	av[ac++] = "--";
+	av[ac++] = spec;
+	fs_run(dround_main, ac, av, &o, &r);
+	++*c_eval;
+	rc = r.signaled ? -1 : r.status;
+	snprintf(out, osz, "%.*s", (int)(r.outlen && r.out[r.outlen - 1] == '\n' ? r.outlen - 1 : r.outlen), r.out);
+	if (mode == 3 && strlen(out) > 4 && !strncmp(out, "x ", 2) && !strcmp(out + strlen(out) - 2, " y")) {
+		/* strip the context again */
+		memmove(out, out + 2, strlen(out) - 1);
+		out[strlen(out) - 2] = '\0';
+	}
+	fs_free(&r);
+	return rc;
+}
+
+static void
+do_zones(int zi, int only_in, int only_spec, int verbose)
+{
+	EX_CTR(c_z, "zone_mode_runs");
+	for (int ii = 0; ii < NZIN; ii++) {
+		int64_t in = (int64_t)rc_rd(zin[ii].y, zin[ii].m, zin[ii].d) * 86400 + zin[ii].s;
+		char itxt[40];
+		if (only_in >= 0 && ii != only_in) {
+			continue;
+		}
+		fmt_inst(itxt, sizeof(itxt), FAM_DT, in);
+		for (int si = 0; si < NZDEF; si++) {
+			struct spec_s sp;
+			if (only_spec >= 0 && si != only_spec) {
+				continue;
+			}
+			spec_make(&sp, zdefs[si].kind, zdefs[si].n, zdefs[si].down);
+			for (int next = 0; next < 2; next++) {
+				for (int withz = 1; withz >= 0; withz--) {
+					char ref[96] = "", got[96], etxt[40] = "", key[200], cas[64], cmd[200];
+					const char *skip = NULL;
+					int64_t exp = NONE;
+					int have_model = withz && oracle(FAM_DT, in, &sp, next, &exp, &skip) == 0;
+					if (have_model) {
+						fmt_inst(etxt, sizeof(etxt), FAM_DT, exp);
+					}
+					for (int mode = 0; mode < 4; mode++) {
+						const char *what = NULL;
+						run_zone(zn[zi], withz, itxt, sp.text, next, mode, got, sizeof(got));
+						++*c_z;
+						++*c_trans;
+						ex_outcome(ex_hash_mix(ex_hash(got, strlen(got)), (uint64_t)(mode * 7 + si)));
+						if (mode == 0) {
+							snprintf(ref, sizeof(ref), "%s", got);
+							if (have_model && strcmp(got, etxt)) {
+								what = "not the rounding of the wall-clock value";
+							}
+						} else if (strcmp(got, ref)) {
+							what = "differs from the answer for the same value as argument";
+						}
+						snprintf(cmd, sizeof(cmd), "echo '%s%s%s' | dround --from-zone %s%s%s%s%s -- %s", mode == 3 ? "x " : "", itxt,
+							 mode == 3 ? " y" : "", zn[zi], withz ? " -z " : "", withz ? zn[zi] : "", next ? " -n" : "",
+							 mode == 2 ? " -E" : mode == 3 ? " -S" : "", sp.text);
+						if (mode == 0) {
+							snprintf(cmd, sizeof(cmd), "dround --from-zone %s%s%s%s %s -- %s", zn[zi], withz ? " -z " : "", withz ? zn[zi] : "",
+								 next ? " -n" : "", itxt, sp.text);
+						}
+						if (verbose) {
+							printf("  %s: '%s'%s%s (argument form '%s'%s%s)\n", cmd, got, what ? " -- " : "", what ? what : "", ref,
+							       have_model ? ", model " : "", have_model ? etxt : "");
+						}
+						if (what) {
+							snprintf(key, sizeof(key), "from-zone mode=%s target=%s -z=%s next=%d: %s", zmode[mode], kind_name[sp.kind],
+								 withz ? "yes" : "no", next, what);
+							snprintf(cas, sizeof(cas), "Z %d %d %d", zi, ii, si);
+							ex_viol(key, (double)(in / 86400), cas, cmd, "%s: got '%s', %s '%s'", cmd, got,
+								mode ? "as argument" : "model", mode ? ref : etxt);
+						}
+					}
+				}
+			}
+		}
 	}
 }
 
@@ -1371,6 +1625,15 @@ main(int argc, char *argv[])
 			do_validation(u, n);
 			return ex_replay_result(ex.nviol != before, "main() validation unit %d N=%d", u, n);
 		}
+		if (ex.cas[0] == 'Z') {
+			int zi, ii, si;
+			uint64_t before = ex.nviol;
+			if (sscanf(ex.cas + 1, "%d %d %d", &zi, &ii, &si) != 3 || zi < 0 || zi >= NZN || ii < 0 || ii >= NZIN || si < 0 || si >= NZDEF) {
+				return ex_replay_result(1, "bad case");
+			}
+			do_zones(zi, ii, si, 1);
+			return ex_replay_result(ex.nviol != before, "%s", ex.cas);
+		}
 		if (ex.cas[0] == 'L') {
 			int fam, next, n, idx[3];
 			long long in;
@@ -1432,15 +1695,15 @@ main(int argc, char *argv[])
 		"on the requested side; rounding the result again (no -n) must not move it. Readings: a day-of-month target beyond a month's end is judged "
 		"only when the exact and the clamped reading agree; several RNDSPECs in one call: the single-spec model applied left to right (--help), and the whole "
 		"list once more on the tool's own result; Nb (business day of the month, 1..20) on values held as business day of the month and /1b (grid = Mon-Fri) "
-		"are judged; Nw (ISO week number 1..53, accepted by the tool and pinned by test/dround.030) on week dates: nearest date on the requested side in week N with the weekday kept, week 53 of a 52-week year judged only where the exact and the clamped reading agree; dates held as week date, year-day, n-th weekday of the month, Lilian day number or business day of the month and epoch values: the same model as for ymd dates (quantifier: all dates), printed in the input's calendar; a refusal (no value) is accepted there, an ignored target is not; sub-second inputs: grid points are whole seconds, value targets keep the fraction; where the day-of-month / week-53 / business-day readings differ the target is open but rounding twice must still equal rounding once; not enumerated: Nq (the help does not say which month/day of the quarter is meant), Ny (refused by the tool: years do not recur), "
+		"are judged; Nw (ISO week number 1..53, accepted by the tool and pinned by test/dround.030) on week dates: nearest date on the requested side in week N with the weekday kept, week 53 of a 52-week year judged only where the exact and the clamped reading agree; dates held as week date, year-day, n-th weekday of the month, Lilian day number or business day of the month and epoch values: the same model as for ymd dates (quantifier: all dates), printed in the input's calendar; a refusal (no value) is accepted there, an ignored target is not; sub-second inputs: grid points are whole seconds, value targets keep the fraction; where the day-of-month / week-53 / business-day readings differ the target is open but rounding twice must still equal rounding once; Nq: judged is what every reading shares (in the quarter already: unchanged; else a day of the nearest quarter N on the requested side with day of month and time kept), which month of the quarter is open; /1w (a week grid is nowhere documented) not enumerated; --from-zone: the value is rounded in the zone's wall-clock time whichever way it is given (argument form pinned by test/dround.034); not enumerated: Ny (refused by the tool: years do not recur), "
 		"Nw (not in the help's list of suffixes), the documented spelling `bd' (rejected by the parser, see notes); /Nmo only for N | 12; results beyond 1601..4095 skipped. non-trivial = the rounded value is in another month (dates), on "
 		"another day (date-times), or beyond midnight (times)");
 	ex_meta("bound", "%s: dates: all days %d-01-01..%d-12-31 x {7 weekday names, 12 month names, 12 month numbers, day-of-month 1..31, /1d, /{1,2,3,4,6,12}mo, "
 		"/{1,2,4,5,10,100}y} x {up,down} x {-,-n}; times: all 86,400 seconds x {0..23h, 0..59m, 0..59s, /{1,2,3,4,6,8,12,24}h, /{12 divisors of 60}m, "
 		"/{12 divisors}s} x {up,down} x {-,-n}; date-times: %d boundary days x 7 times x all of the above; the same instants given as Unix epoch seconds (-i %%s) x the /N time targets; main(): N = 0..70 x {h,m,s,mo,d} x {N, /N} x "
 		"{up,down} x {-,-n} x 3 inputs; lists: all ordered pairs%s over %d RNDSPECs of mixed kinds x {-,-n} on %d days (the boundary days before 4094) x 7 times (date-times) and on the days alone "
-		"(date specs only); bizda: every Mon-Fri day of the tier x 1..20b x {up,down} x {-,-n}; week dates: every day of the tier x 1..53w x {up,down} x {-,-n}, observed as week date and as %%F; dates held as ywd / yd / ymcw / ldn / bizda: every day of %d years x all date targets; epoch values also x {Mon Feb 3mo 15d 5h 30m 59s /1d /Nmo /Ny /1b}; date-times with .5 / .000000001 / .999999999 s on the boundary days x all targets; 21b..23b on all Mon-Fri days; binding: %d RNDSPECs x all days of the tier on stdin of the dround binary",
-		ex.thorough ? "thorough" : "quick", ylo, yhi, NBDAYS, ex.thorough ? " and triples" : "", NMDEF, NBDAYS - 3, ex.thorough ? 24 : 2, NBIND);
+		"(date specs only); bizda: every Mon-Fri day of the tier x 1..20b x {up,down} x {-,-n}; week dates: every day of the tier x 1..53w x {up,down} x {-,-n}, observed as week date and as %%F; dates held as ywd / yd / ymcw / ldn / bizda: every day of %d years x all date targets; epoch values also x {Mon Feb 3mo 15d 5h 30m 59s /1d /Nmo /Ny /1b}; date-times with .5 / .000000001 / .999999999 s on the boundary days x all targets; 21b..23b on all Mon-Fri days; 1w..53w also on the dates of those years written as ymd / yd / ymcw / ldn / bizda and on the boundary date-times; 1q..4q on those ymd dates and date-times; --from-zone Z [-z Z] for %d zones (whole-hour, half-hour, 45-minute offsets, DST) x 5 date-times x 16 specs x {-,-n} x {argument, stdin, -E, -S}; binding: %d RNDSPECs x all days of the tier on stdin of the dround binary",
+		ex.thorough ? "thorough" : "quick", ylo, yhi, NBDAYS, ex.thorough ? " and triples" : "", NMDEF, NBDAYS - 3, ex.thorough ? 24 : 2, ex.thorough ? NZN : 4, NBIND);
 	ex_meta("binding", "dround binary of the same build reading all days of the tier from stdin for %d (option, RNDSPEC) pairs, byte-compared with the level-S observation", NBIND);
 
 	/* dates: one slice per year */
@@ -1478,6 +1741,8 @@ main(int argc, char *argv[])
 			int64_t in = (int64_t)rc_rd(bdays[b][0], bdays[b][1], bdays[b][2]) * 86400 + T7[k];
 			do_input(FAM_DT, in, 0, bd_lo);
 			do_input(FAM_DT, in, cobd_lo, cobd_hi);
+			do_input(FAM_DT, in, wk_lo, wk_hi);
+			do_input(FAM_DT, in, q_lo, q_hi);
 		}
 		++*c_traces;
 	}
@@ -1523,6 +1788,14 @@ main(int argc, char *argv[])
 					}
 					do_input(hfam[hi], rd, date_lo, date_hi);
 					do_input(hfam[hi], rd, cobd_lo, cobd_hi);
+					if (hfam[hi] != FAM_W) {
+						/* week numbers on dates not written as week dates */
+						do_input(hfam[hi], rd, wk_lo, wk_hi);
+					} else {
+						/* the same years written as ymd: week numbers and quarters */
+						do_input(FAM_D, rd, wk_lo, wk_hi);
+						do_input(FAM_D, rd, q_lo, q_hi);
+					}
 				}
 				++*c_traces;
 			}
@@ -1565,6 +1838,13 @@ main(int argc, char *argv[])
 					do_multi_input(FAM_D, rd, len);
 				}
 			}
+			++*c_traces;
+		}
+	}
+	/* --from-zone through argument, stdin, -E, -S */
+	for (int zi = 0; zi < (ex.thorough ? NZN : 4) && !ex_expired(); zi++, slice++) {
+		if (ex_mine(slice)) {
+			do_zones(zi, -1, -1, 0);
 			++*c_traces;
 		}
 	}
